@@ -485,13 +485,26 @@ fn eqhash_mode(line: &str) -> String {
 /// the four node types and prints, per type, `E<0|1>H<0|1>` (documents equal? hashes equal?) or SKIP.  Equality of
 /// the marked types must be the equality of the plain types: it must neither see spans that differ (eqhash) nor be
 /// satisfied by spans that coincide while the data differ.
+fn load_text_deferred<'a, N: Node<'a>>(s: &'a str) -> Option<Vec<N>> {
+    let mut parser = Parser::new(StrInput::new(s));
+    let mut loader = YamlLoader::<N>::default();
+    loader.early_parse(false);
+    parser.load(&mut loader, true).ok()?;
+    Some(loader.into_documents())
+}
+/// eager documents, then (second pair of letters) the deferred documents (unresolved `Representation` leaves with their tags)
 fn eqpair_one<'a, N: Node<'a>>(a: &'a str, b: &'a str) -> String {
     let (Some(x), Some(y)) = (load_text::<N>(a), load_text::<N>(b)) else {
         return "SKIP".into();
     };
     let eq = x == y;
     let h = x.iter().map(hash_of).eq(y.iter().map(hash_of));
-    format!("E{}H{}", u8::from(eq), u8::from(h))
+    let (Some(dx), Some(dy)) = (load_text_deferred::<N>(a), load_text_deferred::<N>(b)) else {
+        return "SKIP".into();
+    };
+    let deq = dx == dy;
+    let dh = dx.iter().map(hash_of).eq(dy.iter().map(hash_of));
+    format!("E{}H{}D{}G{}", u8::from(eq), u8::from(h), u8::from(deq), u8::from(dh))
 }
 fn eqpair_mode(line: &str) -> String {
     let Some((la, lb)) = line.split_once('#') else {
